@@ -17,8 +17,9 @@ def cubes_noloss(tier):
 
 def cubes_links(tier):
     if tier == "quick":
-        return [dict(nops=2, o1=o, kinds=["file", "dir"]) for o in range(5)]
-    return [dict(nops=3, o1=o, kinds=k, _w=3) for o in range(5) for k in (["file", "dir"], ["dir", "file"], ["file", "file"])]
+        # the clean-up runs twice on the record-first history (it runs on every checkout)
+        return [dict(nops=2, o1=o, kinds=["file", "dir"], passes=2 if o == 0 else 1) for o in range(5)]
+    return [dict(nops=3, o1=o, kinds=k, passes=2, _w=3) for o in range(5) for k in (["file", "dir"], ["dir", "file"], ["file", "file"])]
 
 
 N_SMOKE = dict(s0=3, s1=2, s2=0, stray=1, relink=False, prompt_declines=True)
